@@ -851,6 +851,8 @@ def request_target_evaluation(ctx, rep, rule="R05g"):
         yield "/notes;2.txt", "/notes;2.txt", "literal ';'"
         yield "/x&y=z,w+v$", "/x&y=z,w+v$", "literal sub-delims"
         yield "/a%20b?searchrequest=q", "/a b", "with a query"
+        yield "/dir/sub/", "/dir/sub", "trailing slash"
+        yield "/dir/sub%2F", "/dir/sub", "percent-encoded trailing slash (normalised after decoding, like every other protocol's selector)"
 
     protos = [("protocols.http.HTTPProtocol", lambda t: {"self.requestparts": Const(["GET", t, "HTTP/1.0"]), "self.requestparts[1]": Const(t),
                                                           "self.requestparts[0]": Const("GET")}),
